@@ -45,12 +45,13 @@ claim('C15', "Deductive proof (Verus): all sender/receiver invariants are stated
       "Inherent to 16-bit numbering: a datagram delayed by more than 65535 blocks is indistinguishable.", T, "DESIGN.md 4 C15")
 claim('C16', "Deductive proof (Verus): send_packet emits exactly repeat_amount copies of the given packet back to back (loop invariant over the ghost trace), all data-phase emissions of send_file/receive_file go through it, handshake/refusal datagrams go through the leaf send once, and the server starts workers with repeat = duplicate_packets + 1 under the Server invariant duplicate_packets < 255.",
       "Config::new's rejection of 255 is covered by the C17 work (see evidence).", T, "DESIGN.md 4 C16")
+claim('C17', "Deductive proof (Verus) that Config::new and ClientConfig::new compute exactly a left fold of a per-unit step function over the argument vector (flag + optional value; the real loop over a generic Iterator<Item=String> is related to the argument sequence through vstd's prophetic iterator specification): every error case of the statement yields Err, otherwise the configuration is the fold result, so the last occurrence of a flag wins; directory fall-back exactly when not given; documented defaults. On the specification itself (pure lemmas, also machine-checked): the outcome depends only on the remaining arguments, a unit assigns exactly one setting independently of the configuration so far, assignments to different settings commute, hence swapping two adjacent units of DIFFERENT flags never changes the outcome (order independence), and the defaults lemma.",
+      "Value parsing (IpAddr, u16, u8, usize, u64), Path::exists and the current directory are uninterpreted functions of the argument text; Default impls are trusted (external_body) with the documented defaults as their contract; '-h' exits the process (no postcondition).", "Verus: loop invariant 'configuration so far == fold so far' + pure commutation lemmas on the fold", "DESIGN.md 4 C17")
 claim('C18', "Deductive proof (Verus) of full-view contracts of every public Window operation on the real code: fill hands out exactly the next pieces of the file in order (representation invariant: buffer == contiguous run of pieces ending at the read position), never exceeds size, flags the end with the first short piece and adds nothing afterwards; remove(k) drops exactly the k oldest or fails unchanged; add fails exactly when full; empty appends all pieces in order and clears.",
       "File model and VecDeque::drain specification are assumed.", "Verus data-structure invariant + full-view postconditions", "DESIGN.md 3, 4 C18")
 
 NA = {
  'C14': "two-process interoperability over UDP (IPv4/IPv6, both binaries) is outside contract-based verification of functions; no reduced client-side contracts are claimed yet",
- 'C17': "Config::new / ClientConfig::new are not under contract yet (generic Iterator<Item=String> argument loop); not claimed until they are",
 }
 
 def main():
